@@ -10,6 +10,11 @@ C12.e merge: among same-named nodes the maximum under the given ordering is chos
 C12.f repair: the new content of a file is exactly the subsequence of its blobs that the index still has; the file is
   marked changed (suffix) iff a blob is missing; an unreadable tree is replaced by an empty tree.
 C12.g rewrite: a node is removed only if the exclusion matcher says Ignore.
+C12.d also: the blob-collecting walk starts from the root tree of EVERY snapshot to copy (no filter by presence in the
+  destination: a present root does not imply present children).
+C12.e also: the merged subtree is attached only if the winning node itself is a directory.
+C12.h processed-tree caches of tree visitors are keyed by everything the processing depends on: the rewrite visitor matches
+  globs against the path, so its caches must be keyed by (path, tree id); repair's is path-independent.
 """
 import re
 from rules.common import *
